@@ -426,6 +426,9 @@ func readFetchResponseHeaderV5(r *bufio.Reader, size int) (throttle int32, water
 
 	if abortedTransactionLen == -1 {
 		abortedTransactions = nil
+	} else if abortedTransactionLen < 0 {
+		err = fmt.Errorf("invalid number of aborted transactions in the fetch response: %d", abortedTransactionLen)
+		return
 	} else {
 		abortedTransactions = make([]AbortedTransaction, abortedTransactionLen)
 		for i := 0; i < abortedTransactionLen; i++ {
@@ -530,6 +533,9 @@ func readFetchResponseHeaderV10(r *bufio.Reader, size int) (throttle int32, wate
 
 	if abortedTransactionLen == -1 {
 		abortedTransactions = nil
+	} else if abortedTransactionLen < 0 {
+		err = fmt.Errorf("invalid number of aborted transactions in the fetch response: %d", abortedTransactionLen)
+		return
 	} else {
 		abortedTransactions = make([]AbortedTransaction, abortedTransactionLen)
 		for i := 0; i < abortedTransactionLen; i++ {
